@@ -12276,6 +12276,12 @@ CK_RV SoftHSM::getDSAPrivateKey(DSAPrivateKey* privateKey, Token* token, OSObjec
 		value = key->getByteStringValue(CKA_VALUE);
 	}
 
+	if (prime.size() == 0 || subprime.size() == 0 || generator.size() == 0 || value.size() == 0)
+	{
+		ERROR_MSG("The DSA private key lacks a component");
+		return CKR_GENERAL_ERROR;
+	}
+
 	privateKey->setP(prime);
 	privateKey->setQ(subprime);
 	privateKey->setG(generator);
@@ -12316,6 +12322,12 @@ CK_RV SoftHSM::getDSAPublicKey(DSAPublicKey* publicKey, Token* token, OSObject* 
 		value = key->getByteStringValue(CKA_VALUE);
 	}
 
+	if (prime.size() == 0 || subprime.size() == 0 || generator.size() == 0 || value.size() == 0)
+	{
+		ERROR_MSG("The DSA public key lacks a component");
+		return CKR_GENERAL_ERROR;
+	}
+
 	publicKey->setP(prime);
 	publicKey->setQ(subprime);
 	publicKey->setG(generator);
@@ -12350,6 +12362,12 @@ CK_RV SoftHSM::getECPrivateKey(ECPrivateKey* privateKey, Token* token, OSObject*
 		value = key->getByteStringValue(CKA_VALUE);
 	}
 
+	if (group.size() == 0 || value.size() == 0)
+	{
+		ERROR_MSG("The EC private key lacks a component");
+		return CKR_GENERAL_ERROR;
+	}
+
 	privateKey->setEC(group);
 	privateKey->setD(value);
 
@@ -12380,6 +12398,12 @@ CK_RV SoftHSM::getECPublicKey(ECPublicKey* publicKey, Token* token, OSObject* ke
 	{
 		group = key->getByteStringValue(CKA_EC_PARAMS);
 		point = key->getByteStringValue(CKA_EC_POINT);
+	}
+
+	if (group.size() == 0 || point.size() == 0)
+	{
+		ERROR_MSG("The EC public key lacks a component");
+		return CKR_GENERAL_ERROR;
 	}
 
 	publicKey->setEC(group);
@@ -12479,6 +12503,12 @@ CK_RV SoftHSM::getDHPrivateKey(DHPrivateKey* privateKey, Token* token, OSObject*
 		prime = key->getByteStringValue(CKA_PRIME);
 		generator = key->getByteStringValue(CKA_BASE);
 		value = key->getByteStringValue(CKA_VALUE);
+	}
+
+	if (prime.size() == 0 || generator.size() == 0 || value.size() == 0)
+	{
+		ERROR_MSG("The DH private key lacks a component");
+		return CKR_GENERAL_ERROR;
 	}
 
 	privateKey->setP(prime);
